@@ -22,6 +22,9 @@ import (
 // TPS: ticks per simulated second (one tick = one Context.Err() poll = one evaluated node).
 const TPS = 1000
 
+// DefaultFreeMemory is what object.FreeMemory() answers inside the simulation when no memory fault is armed.
+const DefaultFreeMemory = 256 << 20
+
 // World is the environment one session (or several compared sessions, each with its own World)
 // runs in. Everything is single-goroutine; `cur` is the world the hooks talk to.
 type World struct {
@@ -216,8 +219,13 @@ func Install(cfg *extensions.Config) {
 	}
 	simhook.FreeMemoryFn = func() (int64, bool) {
 		w := cur
-		if w == nil || !w.memActive || w.inTicks < w.memFrom {
+		if w == nil {
 			return 0, false
+		}
+		if !w.memActive || w.inTicks < w.memFrom {
+			// constant virtual budget: removes the GC-timing dependence of the real reading and bounds
+			// any single allocation of a simulated program (16M objects).
+			return DefaultFreeMemory, true
 		}
 		return w.memFree, true
 	}
